@@ -10,6 +10,11 @@ def split_commands(ctx):
     # anti-vacuity: the two ways to get the combination wrong must be caught by the module's invariants
     ctx.mc("redis", "ClusterSplit", "MC_ClusterSplit_dedup.cfg", workers=4, timeout=600,
            expect_violated=["EqualsReference", "StoreIsReference"], count=False)
+    # a per-key SET answered with an error: MSET that answers OK whatever its children were answered (the code before the repair
+    # of msetRequest.onChildDone) must violate EqualsReference; the main configuration above has a failing key and is clean with
+    # the repaired combination (error whenever a per-key command failed)
+    ctx.mc("redis", "ClusterSplit", "MC_ClusterSplit_msetok.cfg", workers=2, timeout=600,
+           expect_violated=["EqualsReference"], count=False)
     ctx.mc("redis", "ClusterSplit", "MC_ClusterSplit_fold.cfg", workers=2, timeout=600,
            expect_violated=["EqualsReference"], count=False)
     if ctx.thorough:
@@ -21,7 +26,7 @@ def split_commands(ctx):
                 sim_depth=400, seed=ctx.seed, deadlock=False, timeout=600)
     vecs = [p for (tag, p) in g.prints if tag == "VEC"]
     behs = [p for (tag, p) in g.prints if tag == "BEH"]
-    if len(vecs) < 1000 or len(behs) < 5:
+    if len(vecs) < 1800 or len(behs) < 5:
         raise kit.Inconclusive("ClusterSplitGen emitted %d vectors, %d programs: %s" % (len(vecs), len(behs), g.error[:300]))
     vfile = os.path.join(ctx.work, "split-vectors.ndjson")
     bfile = os.path.join(ctx.work, "split-programs.ndjson")
@@ -45,6 +50,8 @@ def split_commands(ctx):
                 sig = "first-hop-not-owner/multi-key/%s" % b["class"]
             elif b["class"] == "state":
                 sig = "data-differs/multi-key/%s" % b["shape"]
+            elif b["shape"] == "child-error" and b["class"] == "mwrite" and b["why"].startswith("child error swallowed"):
+                sig = "reply-differs/multi-key/mset/child-error-swallowed"
             else:
                 sig = "reply-differs/multi-key/%s/%s" % (b["class"], b["shape"])
             ctx.violation(sig, "%s %s (%s): got %s want %s - %s" % (b["cmd"], b["args"], b["shape"], b["got"], b["want"], b["why"]),
@@ -59,7 +66,7 @@ def split_commands(ctx):
     # mandatory strata: every class, with and without a repeated key, under every concrete command name
     need = {"%s/%s/%s" % (c, sh, n) for c, names in (("mcount", ("exists", "touch")), ("mdel", ("del", "unlink")),
                                                        ("mread", ("mget",)), ("mwrite", ("mset",)))
-            for sh in ("repeated-key", "distinct-keys", "wide") for n in names}
+            for sh in ("repeated-key", "distinct-keys", "wide", "child-error") for n in names}
     missing = sorted(need - strata)
     if missing and not ctx.violations:
         raise kit.Inconclusive("multi-key strata not exercised: %s" % missing)
